@@ -347,7 +347,7 @@ fn is_unambiguous_name(image_name: &str) -> bool {
 
 fn is_url(maybe_url: &str) -> bool {
     // this is a shortcut to keep binary size small, we don't need a full URL parser here
-    let re = Regex::new("^((https?)|(git)://)|(github\\.com/).+$").unwrap();
+    let re = Regex::new("^((https?|git)://|github\\.com/).+$").unwrap();
     re.is_match(maybe_url)
 }
 
